@@ -1158,7 +1158,8 @@ def alias_dotted_(fnode, e):
 
 def r7_edges_only_added(ctx, rep, R='C20.R7'):
     rep.rule(R, 'the graph the components are computed for is the graph that was built: once an edge is '
-             'recorded it stays -- the neighbour map is bound only in __init__, an entry is assigned '
+             'recorded it stays -- the neighbour map and the node set are bound only in __init__ (never '
+             're-bound: aliases and bound methods taken from them must stay valid), an entry is assigned '
              '(map[k] = ...) only where k is known to have no entry yet, everything else adds to the '
              'existing set (|=, .update / .add on the set); no pop / del / clear, and no bulk '
              'map.update(...) that would overwrite the sets of nodes that are already known')
@@ -1174,6 +1175,10 @@ def r7_edges_only_added(ctx, rep, R='C20.R7'):
                 for t in st.targets:
                     if dotted(t) == 'self._neighbors' and fi.name != '__init__':
                         what = 'the neighbour map is re-bound'
+                    if dotted(t) == 'self._nodes' and fi.name != '__init__':
+                        n += 1
+                        what = ('the node set is re-bound (aliases taken earlier -- bound methods such as '
+                                'self._nodes.intersection, locals -- keep referring to the old, now stale set)')
                     if isinstance(t, ast.Subscript) and is_map(t.value):
                         # the key must be known to be absent here
                         key = norm(t.slice)
